@@ -42,7 +42,7 @@ ASSUMPTIONS = ['names are compared through vocabulary tables sent to the model (
                '(the model returns "other exception" for them)']
 
 STATES = ['slew', 'track', 'scan', 'stop']
-LABELS = ['', 'track', 'raster', 'cal', 'point']
+LABELS = ['', 'track', 'raster', 'cal', 'point', 'drift scan', 'noise diode']   # free text: inner blanks are legal
 TAGS = ['radec', 'azel', 'bpcal', 'gaincal', 'target', 'fluxcal', 'nope', 'special']
 TNAMES = ['A', 'Aalias', 'B', 'C', 'Cee', 'PKS 1934-63', 'J1939-6342', 'D', 'Dd', 'E', 'Moon', 'nope']
 ANTS = ['m000', 'm001', 'm062', 'm063', 'm999']
